@@ -234,6 +234,89 @@ def prove_abs_le(res, tol, assumptions=None, label="", timeout_ms=20000, exact_f
     return Outcome("inconclusive", how="exact", detail="unknown/timeout")
 
 
+def prove_zero_on_equalities(res, assumptions):
+    """Algebraic shortcut for `res == 0` on a lower-dimensional region: equalities are read off the assumptions (explicit `==`, and pairs
+    p >= 0 and p <= 0); an equality that is linear in an auxiliary variable with a constant coefficient eliminates it (also from the
+    auxiliaries' defining equations, which become polynomial generators g); the numerator of res, reduced, must then be zero or an
+    exact polynomial multiple of one generator g (res = h g, g = 0 on the region).  Returns an Outcome or None when it does not apply."""
+    c = ctx()
+    res = as_sym(res)
+    n = reduce_mod_sides(res.n)
+    if n.is_zero():
+        return Outcome("held", how="normal-form")
+    eqs = []
+    seen = {}
+    for a in assumptions or []:
+        if not isinstance(a, Cond):
+            continue
+        if a.op == "==":
+            eqs.append(a.p)
+        elif a.op in (">=", "<="):
+            k = a.p
+            kn = -a.p
+            if (k, a.op) in seen:
+                continue
+            seen[(k, a.op)] = True
+            opp = "<=" if a.op == ">=" else ">="
+            if (k, opp) in seen or (kn, a.op) in seen:
+                eqs.append(a.p)
+    if not eqs:
+        return None
+    gens = [cd.p for cd in c.side if cd.op == "=="]
+    # eliminate variables through equalities linear in them
+    for e in eqs:
+        target = None
+        for v in sorted(e.vars(), key=lambda vv: (c.kind.get(vv) != "aux", vv)):
+            co = e.coeffs_in(v)
+            if max(co) == 1 and co[1].is_const() and not co[1].is_zero():
+                target = (v, co)
+                break
+        if target is None:
+            gens.append(e)
+            continue
+        v, co = target
+        expr = (-co.get(0, Poly())).scale(1 / co[1].const_value())
+        n = n.subs(v, expr)
+        gens = [g.subs(v, expr) for g in gens]
+        eqs = [x.subs(v, expr) if x is not e else x for x in eqs]
+    n = reduce_mod_sides(n)
+    if n.is_zero():
+        return Outcome("held", how="normal-form")
+    # square roots of constants (e.g. the exact sqrt(2)): elements a + b r of Q(r)[x]; divisibility is tested after multiplying by the conjugate
+    const_roots = [v for v, (kind, args) in c.auxdef.items() if kind == "root" and args[1] == 2 and as_sym(args[0]).is_const()]
+    for g in gens:
+        g = reduce_mod_sides(g)
+        if g.is_zero() or g.is_const():
+            continue
+        nn, gg = n, g
+        for v in const_roots:
+            if v not in gg.vars():
+                continue
+            co = gg.coeffs_in(v)
+            conj = co.get(0, Poly()).sub(co.get(1, Poly()).mul(Poly.var(v)))
+            gg = reduce_mod_sides(gg.mul(conj))
+            nn = reduce_mod_sides(nn.mul(conj))
+        if gg.is_zero() or gg.is_const():
+            continue
+        ok = True
+        parts = [nn]
+        for v in const_roots:
+            parts = [cf for p_ in parts for cf in p_.coeffs_in(v).values()]
+        for part in parts:
+            if part.is_zero():
+                continue
+            try:
+                q = part.exact_div(gg)
+            except Exception:
+                q = None
+            if q is None:
+                ok = False
+                break
+        if ok:
+            return Outcome("held", how="exact-division")
+    return None
+
+
 def prove_cond(goal_holds, assumptions=None, label="", timeout_ms=20000):
     """Decide  for all x : assumptions => goal_holds  where goal_holds is a Cond (or tree).
     Sends assumptions /\\ not(goal)."""
